@@ -151,13 +151,13 @@ def main():
         # ---- study + cascade
         k = 0
         for scheme, short in (("L/Y/YX", "LsYsYX"), ("LXY", "LXY")):
-            for fmt in ("png", "fits", "npy"):
+            for fmt in ("png", "fits", "npy", "jpg"):
                 for (w, hh) in ([(200, 100), (300, 513)] if not h.deep else [(200, 100), (256, 256), (513, 300), (300, 513), (130, 260), (700, 1025)]):   # wide, square and tall (the two axes need different powers of two)
                     k += 1
                     d = os.path.join(root, f"study{k}")
                     pio = PyramidIO(d, scheme=scheme, default_format=fmt)
                     b = Builder(pio)
-                    if fmt == "png":
+                    if fmt in ("png", "jpg"):
                         arr = np.random.RandomState(k).randint(1, 255, size=(hh, w, 3)).astype(np.uint8)
                     else:
                         arr = np.random.RandomState(k).rand(hh, w).astype(np.float32) + 1
@@ -179,7 +179,8 @@ def main():
                     cshape = (p2n, p2n) + arr.shape[2:]
                     canvas = np.zeros(cshape, dtype=arr.dtype) if arr.dtype.kind != "f" else np.full(cshape, np.nan, dtype=arr.dtype)
                     canvas[gy0:gy0 + hh, gx0:gx0 + w] = arr
-                    check_dir(h, tag, d, short, lines, py, expect_levels=int(math.log2(p2n // 256)), full=False, canvas=canvas)
+                    # jpg is lossy: names, extension and levels are checked, pixel content is not
+                    check_dir(h, tag, d, short, lines, py, expect_levels=int(math.log2(p2n // 256)), full=False, canvas=None if fmt == "jpg" else canvas)
                     shutil.rmtree(d, ignore_errors=True)
         # ---- all-sky TOAST
         sky = np.random.RandomState(7).randint(1, 255, size=(64, 128, 3)).astype(np.uint8)
